@@ -39,6 +39,15 @@ PROPS = {
                 "threads; all 8 policies, 1-16 workers, adverse queue knobs.",
         "required_probes": ["waited_for_other_task", "tasks"],
     },
+    "C17": {
+        "quick_runs": 20000, "thorough_runs": 2000000, "seed": 17000001, "chunk": 4096,
+        "rule": "C17 programs: 1-4 plain threads x pop_left/pop_right on contiguous_index_queue, push/pop at both ends of the "
+                "lock-free deque (tiny node pools so that nodes are recycled), push/pop/steal through the four scheduler queue "
+                "back-ends; conservation + drain on every run, sequential order in single-thread runs, linearizability check "
+                "(<= 24 operations) of index queue and deque histories against a sequential model.",
+        "required_probes": ["index.concurrent", "index.sequential", "deque.concurrent", "deque.sequential", "backend0.concurrent", "backend2.sequential"],
+        "stubbed": ["no pika runtime is started for this property: the containers are driven directly by simulated plain threads"],
+    },
     "C02": {
         "quick_runs": 8000, "thorough_runs": 500000, "seed": 2000001,
         "rule": "C02 programs: 1-8 independent waiter/waker pairs over raw agent suspend/resume, condition_variable, semaphore, "
@@ -61,6 +70,15 @@ PROPS = {
                 "stop_callback construct (before/after stop) and destroy (other thread, inside own callback, inside another "
                 "callback), racing request_stop over two stop states; one sub-workload uses plain OS threads only.",
         "required_probes": ["request_stop.won", "request_stop.lost", "cb.ran_in_constructor", "cb.destroy_self", "cb.dtor_waited_for_running_callback"],
+    },
+    "C04": {
+        "quick_runs": 20000, "thorough_runs": 2000000, "seed": 4000001, "chunk": 4096,
+        "rule": "C04 programs: 2-12 read/readwrite requests taken in order from async_rw_mutex<Val> / async_rw_mutex<void>; each "
+                "sender is started, dropped unstarted or (reads) copied and started twice on one of 1-4 threads after a drawn delay; "
+                "read wrappers are copied 0-2 times; every copy is released by a drawn thread after a drawn delay; the mutex "
+                "object is destroyed first in half of the runs.",
+        "required_probes": ["dropped_unstarted", "sender_copied", "mutex_destroyed_first", "void_mutex", "value_mutex"],
+        "stubbed": ["no pika runtime is started for this property: the header-only mutex is driven by simulated plain threads"],
     },
     "C05": {
         "quick_runs": 3000, "thorough_runs": 150000, "seed": 5000001,
